@@ -29,7 +29,7 @@ CONFIRM_ALONE = ('terminate_slow', 'terminate_hung', 'worker_still_alive_after_s
                  'other_job_failed_because_of_signal', 'job_of_signalled_worker_never_resolved')
 FLOORS = {
     'quick': {'real:terminate_scenarios': 14, 'real:signal_scenarios': 14, 'real:busy_at_call': 10,
-              'real:exit_callbacks_seen': 8, 'real:gc_scenarios': 1},
+              'real:exit_callbacks_seen': 8, 'real:gc_scenarios': 1, 'real:supervision_window_reached': 1},
     'thorough': {'real:terminate_scenarios': 20, 'real:signal_scenarios': 35},
 }
 STATES = ['idle', 'python', 'c_sleep', 'except_handler', 'translate']
@@ -57,6 +57,10 @@ def plan(tier, seed):
     specs.append({'lane': 'real', 'sc': 'terminate', 'timeout': 90, 'params': {
         'worker_state': 'c_sleep', 'nproc': 2, 'queued': 0, 'busy': 2, 'threads': False, 'T': 1.0}})
     specs.append({'lane': 'real', 'sc': 'gc', 'timeout': 80, 'params': {'nproc': 2}})
+    for off in ((0.1, 0.6) if tier == 'quick' else (0.0, 0.1, 0.4, 0.8, 1.1)):
+        specs.append({'lane': 'real', 'sc': 'race', 'timeout': 90, 'params': {
+            'nproc': 3, 'T': 1.0, 'offset': off, 'hook_sleep': 1.2, 'worker_state': 'idle',
+            'threads': True}})
     if tier != 'quick':
         specs.append({'lane': 'real', 'sc': 'gc', 'timeout': 80, 'params': {'nproc': 4}})
         specs.append({'lane': 'real', 'sc': 'terminate', 'timeout': 90, 'params': {
@@ -87,7 +91,8 @@ def plan(tier, seed):
 def run_spec(spec, rec):
     p = spec['params']
     sc = spec['sc']
-    fn = {'terminate': 'sc_terminate', 'gc': 'sc_gc_pool', 'signal': 'sc_signal_worker'}[sc]
+    fn = {'terminate': 'sc_terminate', 'gc': 'sc_gc_pool', 'signal': 'sc_signal_worker',
+          'race': 'sc_terminate_during_supervision'}[sc]
     r = real.run_scenario('vmon.real_pool', fn, p, timeout=spec['timeout'] - 25)
     obs, ev = r['obs'], r['events']
     if r['status'] == 'scenario_error':
@@ -103,6 +108,9 @@ def run_spec(spec, rec):
     elif sc == 'gc':
         rec.count('real:gc_scenarios')
         check_gc(p, r, obs, ev, attrs, rec)
+    elif sc == 'race':
+        rec.count('real:terminate_during_supervision')
+        check_race(p, r, obs, ev, attrs, rec)
     else:
         attrs['signame'] = p['signame']
         rec.count('real:signal_scenarios')
@@ -158,6 +166,32 @@ def check_terminate(p, r, obs, ev, attrs, rec):
              p.get('threads')])
     rec.sample({'scenario': 'terminate', 'params': p, 'terminate_wall': round(obs['terminate_wall'], 2),
                 'exit_callbacks': len(exits)})
+
+
+def check_race(p, r, obs, ev, attrs, rec):
+    if r['status'] == 'hang':
+        rec.violation('terminate_hung', attrs, params=p, obs=obs, stacks=r['stderr'][-6000:])
+        return
+    if r['status'] == 'died':
+        rec.violation('host_process_died', attrs, params=p, rc=r['rc'], stderr=r['stderr'][-3000:])
+        return
+    if obs.get('no_victim') or not obs.get('hook_entered'):
+        rec.anomaly('supervision_window_not_reached', obs=obs)
+        return
+    rec.count('real:supervision_window_reached')
+    alive = {k: v for k, v in obs['workers_after'].items() if v != 'Z'}
+    if alive:
+        rec.violation('worker_alive_after_terminate', attrs, left=obs['workers_after'],
+                      ups=obs['ups'], params=p)
+    t_ret = next((e['t'] for e in ev if e['k'] == 'terminate_call'), None)
+    late_ups = [e for e in ev if e['k'] == 'process_up' and t_ret and e['t'] > t_ret]
+    if late_ups:
+        rec.violation('worker_started_after_terminate', attrs, events=late_ups[:3], params=p)
+    if obs['threads_after']:
+        rec.violation('pool_thread_alive_after_terminate', attrs, threads=obs['threads_after'])
+    if obs['terminate_wall'] > 25:
+        rec.violation('terminate_slow', attrs, wall=obs['terminate_wall'])
+    rec.sig(['race', p['offset']])
 
 
 def check_gc(p, r, obs, ev, attrs, rec):
